@@ -1,12 +1,16 @@
 /-
   Driver operations of C07:
-    links-spec {"d":[labels..],"v":[values..],"cancels":[t..]}  -> {"l":[[attr,owner]..],"recalls_ok":b,"complete":b}
+    links-spec {"d":[labels..],"v":[values..],"cancels":[t..]}  -> {"l":[[attr,owner]..],"recalls_ok":b,"complete":b,"markers_ok":b}
         `Spec.links` evaluated on a flat item list as `dec-data` (or the implementation) reports it:
         labels are `str(descriptor)` ("001001", "A01001", "S63255", "T/F/D/R01001", "222000"),
         values as in CoderOp.  `cancels`: the item counts at which a 235000 was processed.
-    wf-bitmap {"ids":[..]} -> {"wf":b,"no235":b}   (`Spec.WFbitmap` of the template built from the ids)
+        (`markers_ok`: `Spec.markersOk`, the item-side hypothesis of `C07_links_eq_spec`)
+    wf-bitmap {"ids":[..]} -> {"wf":b,"no235":b,"wflinks":b,"nocancel":b}
+        (`Spec.WFbitmap`, and `Spec.WFlinks` / `Spec.noCancelL` — the template-side hypotheses of
+         `C07_links_eq_spec` / `_no235` — of the template built from the ids)
 -/
 import BufrModel.Spec.Links
+import BufrModel.Spec.LinkCancels
 import BufrModel.Drv.CoderOp
 open Lean
 namespace Bufr.Drv
@@ -36,12 +40,14 @@ def opLinksSpec (j : Json) : J Json := do
   let its := ds.zip vs
   pure (jobj [("l", jarr ((Spec.links its cancels).map fun (a, b) => jarr [jnat a, jnat b])),
               ("recalls_ok", Json.bool (Spec.recallsOk its)),
-              ("complete", Json.bool (Spec.complete its cancels))])
+              ("complete", Json.bool (Spec.complete its cancels)),
+              ("markers_ok", Json.bool (Spec.markersOk its))])
 
 def opWfBitmap (st : DrvState) (j : Json) : J (DrvState × Json) := do
   let t ← getTemplate st j
   match t with
   | .error e => pure (st, errJson e)
-  | .ok tmpl => pure (st, jobj [("wf", Json.bool (Spec.wfFlat (Spec.flatIds tmpl))), ("no235", Json.bool (Spec.no235 tmpl))])
+  | .ok tmpl => pure (st, jobj [("wf", Json.bool (Spec.wfFlat (Spec.flatIds tmpl))), ("no235", Json.bool (Spec.no235 tmpl)),
+      ("wflinks", Json.bool (Spec.wfL .idle tmpl)), ("nocancel", Json.bool (Spec.noCancelL tmpl))])
 
 end Bufr.Drv
